@@ -1,5 +1,6 @@
 import GoomVerif.Drv.Util
 import GoomVerif.Model.X86Dec
+import GoomVerif.Model.X86Scan
 /-! Driver for C16: `c16.dec <hex bytes>` → `err=<class> len=<n> op=<NAME> pcrel=<n> pcreloff=<n> opcode=0x<hex>` from the model interpreter. -/
 namespace Drv.C16
 open X86Dec
@@ -22,6 +23,16 @@ def handle (toks : List String) : Option String :=
     | some bs => some (show_ (decode bs))
     | none => some "bad-op"
   | "c16.dec" :: _ => some "bad-op"
+  | ["c16.scan", hex] =>
+    match parseBytes hex with
+    | some bs => some (match scanLoop bs (bs.length + 1) 0 with | some p => s!"pos={p}" | none => "fuel")
+    | none => some "bad-op"
+  | ["c16.fsize", hex] =>
+    match parseBytes hex with
+    | some bs => some (match funcSizeLoop bs (bs.length + 2) 0 false with | some p => s!"size={p}" | none => "fuel")
+    | none => some "bad-op"
+  | "c16.scan" :: _ => some "bad-op"
+  | "c16.fsize" :: _ => some "bad-op"
   | _ => none
 
 end Drv.C16
